@@ -328,6 +328,9 @@ class ForestScenario(explore.Scenario):
                         # same operators with a Set that is not a built-in set
                         out.append(["set", owner, field, "ior_fs", ss])
                         out.append(["set", owner, field, "ixor_fs", ss])
+                if elems and self.live_ops:
+                    # one-shot iterators as arguments
+                    out.append(["set", owner, field, "update_gen", [elems[:2]]])
                 if len(elems) >= 2:
                     out.append(["set", owner, field, "update",
                                 [[elems[0]], [elems[1]]]])
@@ -377,6 +380,9 @@ class ForestScenario(explore.Scenario):
                     out.append(["mods", ir, "setslice", a, b, L])
                 for (a, b, c) in exts:
                     out.append(["mods", ir, "setext", a, b, c, L])
+            if self.live_ops and mods:
+                out.append(["mods", ir, "extend_gen", mods[:2]])
+                out.append(["mods", ir, "setslice_gen", 0, 1, mods[:2]])
             if self.live_ops:
                 for src in names_by_kind(w, "I"):
                     lv = {"live": src}
@@ -535,7 +541,7 @@ class ForestScenario(explore.Scenario):
             elif m == "clear":
                 for x in cur:
                     f.detach(x)
-            elif m == "update":
+            elif m in ("update", "update_gen"):
                 for it in arg:
                     for x in it:
                         f.attach(x, owner)
@@ -585,12 +591,12 @@ class ForestScenario(explore.Scenario):
                     sh.insert(op[3], op[4])
                 elif m == "setitem":
                     sh[op[3]] = op[4]
-                elif m == "extend":
+                elif m in ("extend", "extend_gen"):
                     sh.extend(op[3])
                 elif m == "iadd":
                     sh += op[3]
                     ret = ("self", None)
-                elif m == "setslice":
+                elif m in ("setslice", "setslice_gen"):
                     sh[op[3]:op[4]] = op[5]
                 elif m == "setext":
                     sh[op[3]:op[4]:op[5]] = op[6]
@@ -653,6 +659,8 @@ class ForestScenario(explore.Scenario):
                     return s.pop(), None
                 if m == "clear":
                     return s.clear(), None
+                if m == "update_gen":
+                    return s.update(*[(O[x] for x in it) for it in arg]), None
                 if m == "update":
                     return s.update(*[
                         getattr(O[it["live"]], field) if isinstance(it, dict)
@@ -691,6 +699,11 @@ class ForestScenario(explore.Scenario):
                     return None, None
                 if m == "extend":
                     return L.extend(objs(op[3])), None
+                if m == "extend_gen":
+                    return L.extend(O[x] for x in op[3]), None
+                if m == "setslice_gen":
+                    L[op[3]:op[4]] = (O[x] for x in op[5])
+                    return None, None
                 if m == "iadd":
                     r = operator.iadd(L, objs(op[3]))
                     return ("self" if r is L else r), None
